@@ -4,12 +4,12 @@ One module per unit (harness/props/c19_<unit>.py); each runs the real strax func
 Gallina model on the same inputs and evaluates the property predicate (the spec side of the theorem,
 written independently in Python) on the implementation's output.
 """
-from harness.props import c19_fp, c19_sma
+from harness.props import c19_fp, c19_merge, c19_sma
 
 MODEL_PROPS = ["C19"]
 LEVEL = "proof"
 
-UNITS = [c19_sma, c19_fp]
+UNITS = [c19_sma, c19_fp, c19_merge.RM, c19_merge.MP]
 
 
 def run(ctx):
@@ -18,8 +18,12 @@ def run(ctx):
                            "samples and areas, integer gains): sums must be bit-exact; where a helper divides the "
                            "model returns the exact fraction and the implementation must return the correctly "
                            "rounded value of that fraction (stated per unit)")
+    import sys
+    import time
     for m in UNITS:
+        t0 = time.time()
         m.unit(ctx)
+        sys.stderr.write("C19 unit %s: %.1fs\n" % (m.NAME, time.time() - t0))
 
 
 def replay(ctx, obj):
